@@ -44,9 +44,75 @@ def check(ctx):
              "RichDecorator maps them to Preformat(false)/Preformat(true)")
     ctx.rule("C09-G", "the pushed style is unwound on the renderer it was applied to: the number of sub-renderers an arm pushes "
              "after apply equals the number it pops before unwind (a cell's style lives on the cell's own renderer)")
+    ctx.rule("C09-H", "collapsed whitespace takes its tag with it: on every path of flush_word on which pending whitespace is "
+             "discarded (wslen := 0 without being written), spacetag is cleared before the line is flushed — block padding is "
+             "tagged with spacetag, so a stale one would put an inline element's annotations on the padding")
     for rid, fn in (("C09-A", rule_a), ("C09-B", rule_b), ("C09-C", rule_c), ("C09-D", rule_d),
-                    ("C09-E", rule_e), ("C09-F", rule_f), ("C09-F", rule_f2), ("C09-C", rule_h), ("C09-G", rule_g)):
+                    ("C09-E", rule_e), ("C09-F", rule_f), ("C09-F", rule_f2), ("C09-C", rule_h), ("C09-G", rule_g),
+                    ("C09-H", rule_ws_tag)):
         ctx.guard(rid, fn)
+
+
+def rule_ws_tag(ctx):
+    """Path-wise (powerset) propagation of two facts through flush_word: wslen is known to be 0 (Z) / spacetag is known to
+    be None (C).  At a call of flush_line / force_flush_line no path may arrive with Z but without C."""
+    F = ctx.facts
+    b = F.one("WrappedBlock::<T>::flush_word")
+
+    def field_of(pl):
+        fs = [e for e in pl["p"] if isinstance(e, dict) and "f" in e]
+        return fs[-1]["n"] if fs and ends(fs[-1]["o"], "WrappedBlock") and len(fs) == 1 else None
+
+    def step_stmt(st, z, c):
+        if st["k"] != "assign":
+            return z, c
+        f = field_of(st["lhs"]) if st["lhs"]["p"] else None
+        rv = st.get("rv") or {}
+        if f == "wslen":
+            k = op_const(rv["use"]) if "use" in rv else None
+            z = bool(k is not None and k.get("int") == 0)
+        elif f == "spacetag":
+            c = rv.get("agg") == "adt" and rv.get("variant") == "None"
+            if not c and "use" in rv:
+                from ..util import origin
+                o = origin(b, rv["use"])
+                c = bool(o and o[0] == "rv" and o[1].get("agg") == "adt" and o[1].get("variant") == "None")
+        return z, c
+
+    nstores = sum(1 for x in b.reachable() for st in b.stmts(x)
+                  if st["k"] == "assign" and st["lhs"]["p"] and field_of(st["lhs"]) == "wslen" and
+                  (op_const((st.get("rv") or {}).get("use") or {}) or {}).get("int") == 0)
+    ctx.floor("C09-H", "stores of 0 to wslen in flush_word", nstores, 3)
+    flushes = [bb for bb, t in b.calls(lambda cd, t: ends(cd, "WrappedBlock::<T>::flush_line", "WrappedBlock::<T>::force_flush_line"))]
+    ctx.floor("C09-H", "flush_line calls in flush_word", len(flushes), 2)
+    states = {0: {(False, False)}}
+    work = [0]
+    bad = {}
+    while work:
+        x = work.pop()
+        for (z, c) in list(states[x]):
+            for st in b.stmts(x):
+                z, c = step_stmt(st, z, c)
+            t = b.term(x)
+            if t["k"] == "call":
+                if callee_method(t) == "take" and t["args"]:
+                    pl = direct_place(b, t["args"][0])
+                    if pl is not None and field_of(pl) == "spacetag":
+                        c = True
+                elif x in flushes and z and not c:
+                    bad.setdefault(x, t["span"])
+            for y in b.succ(x):
+                if b.is_cleanup(y):
+                    continue
+                if (z, c) not in states.setdefault(y, set()):
+                    states[y].add((z, c))
+                    work.append(y)
+    for x in flushes:
+        ctx.check(x not in bad, "C09-H", "flush_word:flush_line#%d:discarded-space-has-no-tag" % (sorted(flushes).index(x) + 1),
+                  b.term(x)["span"], b.id,
+                  "a path reaches this flush with the pending whitespace discarded (wslen = 0) but its tag still in spacetag: "
+                  "under pad_block_width the line's padding is then tagged with the annotations of the inline element the "
+                  "space stood in")
 
 
 def ann_ops(b):
